@@ -328,8 +328,19 @@ fn run_case(report: &mut Report, root: &Path, idx: usize, hc: &HistoryCase, memo
     let same_base = true;
     let nontrivial = has_failing || same_base && hc.threads >= 4 || hc.calls.len() >= 10;
     let hist = History { calls: jobs.clone(), threads: hc.threads };
-    match run_history_fresh(&hist, Duration::from_secs(120)) {
+    // bounded work on a tree where histories hang: three are waited for in full, later ones get 10 s
+    static HANGS: std::sync::atomic::AtomicUsize = std::sync::atomic::AtomicUsize::new(0);
+    let limit = if HANGS.load(std::sync::atomic::Ordering::SeqCst) >= 3 { 10 } else { 120 };
+    match run_history_fresh(&hist, Duration::from_secs(limit)) {
         Err(e) => {
+            if e.contains("timed out") {
+                HANGS.fetch_add(1, std::sync::atomic::Ordering::SeqCst);
+                if limit < 120 {
+                    report.count_extra("histories_timed_out_under_the_short_watchdog_after_three_hangs", 1);
+                    let _ = std::fs::remove_dir_all(&dir);
+                    return;
+                }
+            }
             let replay = replay_value(hc, &format!("history process: {}", e));
             report.failure(None, "history-process-died", &format!("the process running the history died or hung: {}", e), || replay);
         }
